@@ -417,7 +417,7 @@ func (x *fleetExec) step(e engine.Event) {
 		}
 		probe := nd.model.Clone()
 		probe.Scale(w)
-		if probe.Gran() < -45 || !probe.FitsAfter(0, 0) {
+		if probe.Gran() < -45 || probe.ValGran < -45 || !probe.FitsAfter(0, 0) {
 			return
 		}
 		nd.each(func(s sk) {
@@ -692,7 +692,7 @@ func (x *fleetExec) deliver(e engine.Event, nd *knode, sig string) bool {
 				return false
 			}
 		}
-		if nd.model.ValsCount()+m.model.ValsCount() > 1e12 {
+		if !nd.model.FitsAfter(math.Max(m.model.ValTotal, m.model.Count()), minInt(m.model.Gran(), m.model.ValGran)) {
 			return false
 		}
 	} else if !x.mergeFits(nd.model, m.model) {
@@ -1107,5 +1107,5 @@ func (x *fleetExec) mergeFitsNodes(dst, src *knode) bool {
 			return false
 		}
 	}
-	return dst.model.ValsCount()+src.model.ValsCount() < 1e12
+	return dst.model.FitsAfter(math.Max(src.model.ValTotal, src.model.Count()), minInt(src.model.Gran(), src.model.ValGran))
 }
